@@ -153,6 +153,7 @@ class MStream:
         self.pos = 0
         self.eof = False
         self.last = None      # 'r' | 'w' | None  (for the read/write alternation rule)
+        self.err = False      # sticky error indicator (set by I/O in a direction the stream lacks)
 
 
 class Step:
@@ -279,7 +280,8 @@ class Plan:
     def do_flush(self, f):
         s = self.stream[f]
         s.last = None
-        self.add("sflush %d" % f, "sflush", f, exp={"tr": "0"}, probe=self.pr(f))
+        sz = str(self.size(f))
+        self.add("sflush %d" % f, "sflush", f, exp={"tr": "0", "sz": sz, "tsz": sz}, probe=self.pr(f))
 
     def do_write_bytes(self, f, data):
         """model effect of writing data at the stream position; returns nothing"""
@@ -361,6 +363,7 @@ class Plan:
                 return self.rq_tell(f)
             data = gen_bytes(seed, min(n, 16))
             self.events.add("wrong-direction")
+            s.err = s.err or bool(data)
             return self.add("swrite %d %s" % (f, _hex(data)), "swrite", f, exc="IOError" if data else None,
                             exp={"r": "0", "tr": "0"}, probe=self.pr(f))
         self.sync_for_write(f)
@@ -397,8 +400,9 @@ class Plan:
                 return self.rq_tell(f)
             n = min(n, 16)
             self.events.add("wrong-direction")
+            s.err = s.err or bool(n)
             return self.add("sread %d %d" % (f, n), "sread", f, exc="IOError" if n else None,
-                            exp={"r": "0", "tr": "0", "terr": "1" if n else "0", "teof": "1" if s.eof else "0",
+                            exp={"r": "0", "tr": "0", "terr": "1" if s.err else "0", "teof": "1" if s.eof else "0",
                                  "data": bytes([SENT]) * n}, probe=self.pr(f))
         self.sync_for_read(f, how)
         self.do_read(f, n)
@@ -421,7 +425,7 @@ class Plan:
                     break
         r = "1" if (n and len(got) == n) else "0"
         self.add("sread %d %d" % (f, n), "sread", f,
-                 exp={"r": r, "tr": r, "terr": "0", "teof": "1" if s.eof else "0",
+                 exp={"r": r, "tr": r, "terr": "1" if s.err else "0", "teof": "1" if s.eof else "0",
                       "data": got + bytes([SENT]) * (n - len(got))}, probe=self.pr(f))
 
     def _target(self, f, sel):
@@ -690,7 +694,7 @@ def run_case(ctx, case):
         s = steps[i]
         o = _parse(obs[i])
         # -- twin against model: the harness must be self-consistent
-        for k in ("tr", "terr", "teof", "topen", "tv", "tfail"):
+        for k in ("tr", "terr", "teof", "topen", "tv", "tfail", "tsz"):
             if k in s.exp and o.get(k) != s.exp[k]:
                 raise HarnessBug("twin disagrees with model at op #%d `%s`: %s=%s, model says %s (case %s)" %
                                  (i, _short(s.line), k, _short(o.get(k)), _short(s.exp[k]), [x.line for x in steps[:i + 1]]))
@@ -720,7 +724,7 @@ def run_case(ctx, case):
             return fail(i, "executor flag %s" % o["_flags"])
         if "depth" in o:
             return fail(i, "exception depth %s after the op" % o["depth"])
-        for k in ("r", "open", "ret", "h", "v"):
+        for k in ("r", "open", "ret", "h", "v", "sz"):
             if k in s.exp and o.get(k) != s.exp[k]:
                 if k == "r" and s.kind == "scan":
                     continue
